@@ -154,6 +154,13 @@ static int us_free(ABT_sched s)
     free(d);
     return ABT_SUCCESS;
 }
+/* a scheduler that counts as one executed unit when it has run (stacked into a pool) */
+static void us_run_counted(ABT_sched s)
+{
+    us_run(s);
+    g_ran++;
+}
+static ABT_sched_def g_sdef_c = { .type = ABT_SCHED_TYPE_ULT, .init = us_init, .run = us_run_counted, .free = us_free, .get_migr_pool = NULL };
 static ABT_sched_def g_sdef = { .type = ABT_SCHED_TYPE_ULT, .init = us_init, .run = us_run, .free = us_free, .get_migr_pool = NULL };
 
 /* ---------------------------------------------------------------- work-unit bodies */
@@ -508,6 +515,19 @@ static int a_set_main_sched(void)
     }
     return r;
 }
+/* A scheduler that exists already (made outside the fault window, freed automatically once it has
+ * run) is stacked into a pool: a failed call must leave it as it was, for the retry. */
+static int add_sched_to(ABT_pool pool)
+{
+    g_h = "na";
+    ABT_sched s = (ABT_sched)g_obj2;
+    int r = ABT_pool_add_sched(pool, s);
+    if (r == ABT_SUCCESS)
+        g_obj2 = NULL; /* the runtime owns it now */
+    return r;
+}
+static int a_pool_add_sched(void) { return add_sched_to(g_p1); }
+static int a_pool_add_sched_up(void) { return add_sched_to(g_up); }
 static int a_info_print(void)
 {
     g_h = "na";
@@ -581,6 +601,8 @@ static const op_t OPS[] = {
     { "set_main_sched_basic", "none", a_set_main_sched_basic, NULL, 1, 1 },
     { "set_main_sched", "none", a_set_main_sched, NULL, 1, 1 },
     { "info_print", "none", a_info_print, NULL },
+    { "pool_add_sched", "p1", a_pool_add_sched, NULL, 0, 1 },
+    { "pool_add_sched_up", "up", a_pool_add_sched_up, NULL, 0, 1 },
 };
 #define NOPS ((int)(sizeof OPS / sizeof OPS[0]))
 
@@ -804,6 +826,16 @@ static int cycle(const op_t *op, int k, uint64_t var)
     if (!strcmp(op->name, "set_main_sched")) {
         ABT_sched s;
         CHK(ABT_sched_create_basic(ABT_SCHED_BASIC, 1, NULL, ABT_SCHED_CONFIG_NULL, &s));
+        g_obj2 = (void *)s;
+    }
+    if (!strncmp(op->name, "pool_add_sched", 14)) {
+        ABT_sched s;
+        ABT_sched_config cfg;
+        ABT_pool sp;
+        CHK(ABT_sched_config_create(&cfg, ABT_sched_config_automatic, 1, ABT_sched_config_var_end));
+        CHK(ABT_pool_create_basic(ABT_POOL_FIFO, ABT_POOL_ACCESS_MPMC, ABT_TRUE, &sp));
+        CHK(ABT_sched_create(&g_sdef_c, 1, &sp, cfg, &s));
+        CHK(ABT_sched_config_free(&cfg));
         g_obj2 = (void *)s;
     }
     g_ran = 0;
